@@ -679,18 +679,25 @@ def tla_prog(prog) -> str:
 
 
 def mc_design(chk, pid, name, maxops, maxhandles, classes, maxkids, modes=("plain", "detached", "unique"),
-              dupmodes=("attached", "detached"), atoms=(0, 1), ops=None, emit=True, invariants=None, prelude=()):
+              dupmodes=("attached", "detached"), atoms=(0, 1), ops=None, emit=True, invariants=None, prelude=(), workers=None):
     """TLC on the machine itself (LegacyMC.tla): the property as an invariant of the design, and the witness program
-    of every transition taken"""
+    of every transition taken.  Runs in a work directory of its own (several instances run side by side)."""
+    import shutil
     inv = MC_INVARIANTS[pid] if invariants is None else invariants
     mod, cfg = inst.instance("I_LegacyMC", "LegacyMC",
                              dict(MaxOps=maxops, MaxHandles=maxhandles, GenClasses=set(classes), MaxKids=maxkids,
                                   Ops=set(ops or MC_OPS), Modes=set(modes), DupModes=set(dupmodes), Atoms=set(atoms),
                                   Prelude="@tla:" + tla_prog(prelude)),
                              invariants=inv, view="View", action_constraints=["Emit"] if emit else [])
-    (chk.wd / "I_LegacyMC.tla").write_text(mod)
-    r = tlc.run(chk.wd, "I_LegacyMC", cfg, workers=core.NPROC, timeout=3000, heap="8g")
-    chk.note_tlc(f"LegacyMC/{name}", r, "mc+gen" if emit else "mc")
+    wd = chk.wd / f"mc-{name}"
+    if wd.exists():
+        shutil.rmtree(wd)
+    wd.mkdir()
+    for f in chk.wd.glob("*.tla"):
+        shutil.copy(f, wd / f.name)
+    (wd / "I_LegacyMC.tla").write_text(mod)
+    r = tlc.run(wd, "I_LegacyMC", cfg, workers=workers or core.NPROC, timeout=3000, heap="6g", gc_threads=4)
+    shutil.rmtree(wd, ignore_errors=True)
     return r
 
 
@@ -735,9 +742,16 @@ def run(chk: core.Check, pid: str, classify):
                ("replace-kids-6", 6, 6, ["LLeaf", "LMany"], 2, ("plain",), (0,), {"create", "replace_kids"}, ("attached",), ()),
                ("after-tuple-3", 8, 8, ["LLeaf", "LUnary", "LMany"], 2, PD, (0,), None, None, TUPLE),
                ("after-chain-4", 7, 7, ["LLeaf", "LUnary"], 1, PD, (0, 1), None, None, CHAIN)]
-    for name, maxops, maxh, classes, maxkids, modes, atoms, ops, dupmodes, prelude in mcs:
-        r = mc_design(chk, pid, name, maxops, maxh, classes, maxkids, modes=modes, atoms=atoms, ops=ops,
-                      dupmodes=dupmodes or ("attached", "detached"), prelude=prelude)
+    import concurrent.futures as cf
+
+    def one_mc(spec):
+        name, maxops, maxh, classes, maxkids, modes, atoms, ops, dupmodes, prelude = spec
+        return name, mc_design(chk, pid, name, maxops, maxh, classes, maxkids, modes=modes, atoms=atoms, ops=ops,
+                               dupmodes=dupmodes or ("attached", "detached"), prelude=prelude, workers=max(2, core.NPROC // 3))
+    with cf.ThreadPoolExecutor(max_workers=3) as ex:
+        results = list(ex.map(one_mc, mcs))
+    for name, r in results:
+        chk.note_tlc(f"LegacyMC/{name}", r, "mc+gen")
         if r.violated:
             chk.tlc_violation("LegacyMC-" + name, r)
         else:
